@@ -128,7 +128,7 @@ def entry_points(job, mode, model, basis, K):
             job.record(tag + "/permeate_basis_tag", "discharged" if o["pc"].type == "weight" else "violated", "", nontrivial=False,
                        replay={"fn": R_, "inputs": dict(fb[0])})
         if not got:
-            job.vacuity["failed"].append(tag)
+            job.unreached(tag)
 
 
 def concrete_process(inp):
@@ -210,7 +210,7 @@ def process_steps(job, kind, mode, tier):
                     job.prove(tag + "/psi", cs, [lift(psi[k]) != (lift(m.partial_fluxes[k][0]) + lift(m.partial_fluxes[k][1])) * (lift(sf[k]) - 1) for k in range(N)],
                               R2, inputs, fallback=fb)
                 if not got:
-                    job.vacuity["failed"].append(tag)
+                    job.unreached(tag)
 
 
 JOB_TIMEOUT = {"quick": 400, "thorough": 2400}
